@@ -97,7 +97,7 @@ Proof.
   - cbn [HcChainCap.RCap] in HC. destruct HC as (HC1 & HC2). cbn.
     split; [left; reflexivity|]. split; [exact HC1|]. split; [intros; congruence | lia].
   - cbn [HcChainSound.RSpec] in HS. cbn [HcChainCap.RCap] in HC.
-    destruct HS as (S1 & S2 & S3 & S4 & S5 & S6). destruct HC as (C1 & C2).
+    destruct HS as (S1 & S2 & S3 & S4 & S5 & S6 & SB). destruct HC as (C1 & C2).
     unfold hc_iend in *.
     assert (Ok1 : cc_ok (cc_with c t (start + srcSize) (if ret <=? 0 then true else cc_dirty c))).
     { right. unfold cc_with, cc_tabs. cbn [cc_endIdx cc_hash cc_chain cc_ntu]. split; [lia|].
